@@ -40,14 +40,14 @@ CLAIMS = {
    technique='TLA+ model of channel send/dispatch/receive/close/setcallback model-checked with TLC; real Gateway+WorkerGateway pair under deterministic schedule exploration (sync-point and line-level preemption); every trace validated by TLC against the TLA+ property automaton',
    ref="5/C07"),
  "C10": dict(
-   text='spec/Gateway.tla models setcallback under _receivelock against dispatch and concurrent receive(); TLC checks callback order, at most one endmarker, and that a lone callback gets all K items and exactly one endmarker. Programs placing setcallback before/between/after in-flight items and closes (incl. dropped channel objects, gateway exit) run on the real gateway pair; GatewayAbs.tla (TLC) checks every item once in order, nothing after the endmarker, exactly one requested endmarker, receive() refused.',
+   text='spec/Gateway.tla models setcallback under _receivelock against dispatch and concurrent receive(); TLC checks callback order, at most one endmarker, and that a lone callback gets all K items and exactly one endmarker. Programs placing setcallback before/between/after in-flight items and closes (incl. dropped channel objects, gateway exit) run on the real gateway pair; GatewayAbs.tla (TLC) checks every item once in order, nothing after the endmarker, exactly one requested endmarker, receive() refused; callbacks that raise or close their own channel, MultiChannel queues and dropped callback channels are among the programs (known finding: a dropped callback channel whose peer ends afterwards never gets CHANNEL_CLOSE).',
    note='Trusted: simulated Lock/Event/Queue/pipe semantics; preemption at synchronisation/IO operations and at source lines of listed functions; virtual time. TLC instance: one channel, K<=3 items, <=3 receivers. Oracle = property automaton spec/GatewayAbs.tla evaluated by TLC on every distinct trace.',
    technique='TLA+ model of channel send/dispatch/receive/close/setcallback model-checked with TLC; real Gateway+WorkerGateway pair under deterministic schedule exploration (sync-point and line-level preemption); every trace validated by TLC against the TLA+ property automaton',
    ref="5/C10"),
  "C18": dict(
-   text='Concurrent newchannel/remote_exec on both sides and channels passed over channels (also nested) run on the real gateway pair with line-level preemption inside ChannelFactory.new; GatewayAbs.tla (TLC) checks ids pairwise distinct with the right parity, traffic on transferred channels reaching the original conversation (per-endpoint order), and channel/callback tables not larger after open/transfer/close/drop cycles than before.',
+   text='spec/ChanIds.tla (TLC) models id allocation of both sides (odd/even counters under the factory lock, explicit ids from the peer) and kills the unlocked design. Concurrent newchannel/remote_exec on both sides and channels passed over channels (also nested) run on the real gateway pair with line-level preemption inside ChannelFactory.new; GatewayAbs.tla (TLC) checks ids pairwise distinct with the right parity, traffic on transferred channels reaching the original conversation (per-endpoint order), and channel/callback tables not larger after open/transfer/close/drop cycles than before (once the conversation has settled). Known finding: the _callbacks entry of a dropped callback channel whose peer ends afterwards.',
    note='Trusted: simulated Lock/Event/Queue/pipe semantics; preemption at synchronisation/IO operations and at source lines of listed functions; virtual time. TLC instance: one channel, K<=3 items, <=3 receivers. Oracle = property automaton spec/GatewayAbs.tla evaluated by TLC on every distinct trace.',
-   technique='TLA+ model of channel send/dispatch/receive/close/setcallback model-checked with TLC; real Gateway+WorkerGateway pair under deterministic schedule exploration (sync-point and line-level preemption); every trace validated by TLC against the TLA+ property automaton',
+   technique='TLA+ models of channel-id allocation and of channel send/dispatch/receive/close/setcallback model-checked with TLC; real Gateway+WorkerGateway pair under deterministic schedule exploration (sync-point and line-level preemption); every trace validated by TLC against the TLA+ property automaton',
    ref="5/C18"),
  "C04": dict(
    text='The worker->initiator byte stream of each program is cut after every possible number of bytes (0..L: inside headers, inside payloads, between frames), either breaking the connection or killing the peer, over the real Popen2IO and SocketIO under explored schedules and read chunkings; the survivor has blocked receivers, waitclose callers and a callback with endmarker. spec/GatewayAbs.tla (TLC) demands: delivered items = the frames that arrived completely, in order; then EOFError; endmarker exactly once; no thread blocked forever; after join() send/newchannel/remote_exec raise OSError and hasreceiver() is false. spec/Gateway.tla gives the exhaustive interleaving argument for the close path.',
@@ -70,7 +70,7 @@ CLAIMS = {
    technique="TLA+ reference file semantics + transliterated buffer algorithm model-checked with TLC; model's scenario space replayed on the real ChannelFile classes; results validated by TLC",
    ref="5/C19"),
  "C20": dict(
-   text='spec/XSpec.tla defines Split/Parse and, independently, Expected(kvs) for key/value lists; TLC checks Parse(Join(kvs)) = Expected(kvs) for all lists of <= 2 (3) pairs over an alphabet with every structural character and determines the unambiguous domain. The real XSpec is run on enumerated and generated lists and judged by TLC (attributes, env, str/eq/hash, absent names, ValueError on any repeated key). Group id allocation/registration and the container protocol run as the real code under the baton scheduler with line-level preemption (preemption-bounded systematic + random schedules) and on a real Group with real popen gateways; TLC checks no two live gateways share an id, auto ids unique, lookups agree with iteration, failed makegateway leaves no process.',
+   text='spec/XSpec.tla defines Split/Parse and, independently, Expected(kvs) for key/value lists; TLC checks Parse(Join(kvs)) = Expected(kvs) for all lists of <= 2 (3) pairs over an alphabet with every structural character and determines the unambiguous domain; spec/GroupIds.tla models allocate_id / _register of concurrent makegateway calls and terminate (TLC kills the check-then-append design). The real XSpec is run on enumerated and generated lists and judged by TLC (attributes, env, str/eq/hash, absent names, ValueError on any repeated key). Group id allocation/registration and the container protocol run as the real code under the baton scheduler with line-level preemption (preemption-bounded systematic + random schedules) and on a real Group with real popen gateways; TLC checks no two live gateways share an id, auto ids unique, lookups agree with iteration, failed makegateway leaves no process.',
    note="Trusted: process creation replaced by recording fakes in the simulated Group runs; ambiguous joins are outside the domain. Known findings: key named 'env', concurrent id collision leaves a process.",
    technique="TLA+ parser spec model-checked with TLC over bounded key/value lists; recorded XSpec results and Group event traces (deterministic simulator with line-level preemption + real gateways) validated by TLC",
    ref="5/C20"),
@@ -80,7 +80,7 @@ CLAIMS = {
    technique="TLA+ decision-table model of the rsync receiver model-checked with TLC over the full pair-complete case space (incl. 2 mutants); cases replayed on the real RSync over a real gateway; outcomes validated by TLC",
    ref="5/C17"),
  "C11": dict(
-   text="spec/Termination.tla models the worker's exit ladder (EOF/terminate seen, pool shutdown, waitall 5 s, SIGINT to itself, waitall 10 s, os._exit) against an environment automaton (idle, blocked in receive, busy, sleeping, swallowing KeyboardInterrupt, stopped, dead) with a discrete clock; TLC checks that the worker is gone within 15 ticks by the expected rung and kills the sys.exit-instead-of-os._exit mutant. Real initiator processes create workers over popen / popen//python= / via / socket with thread, main_thread_only and gevent execmodels running generated activities and are SIGKILLed, close the connection, _exit, or die in the middle of a frame or of the bootstrap; every worker pid is watched in /proc and TLC compares the observed time-to-exit with the model's rung deadline (spec/TermCases.tla).",
+   text="spec/Termination.tla models the worker's exit ladder (EOF/terminate seen, pool shutdown, waitall 5 s, SIGINT to itself, waitall 10 s, os._exit) against an environment automaton (idle, blocked in receive, busy, sleeping, swallowing KeyboardInterrupt, stopped, dead) with a discrete clock; TLC checks that the worker is gone within 15 ticks by the expected rung and kills the sys.exit-instead-of-os._exit mutant. Real initiator processes create workers over popen / popen//python= / via / socket with thread, main_thread_only and gevent execmodels running generated activities and are SIGKILLed, close the connection, _exit, or die in the middle of a frame or of the bootstrap; every worker pid is watched in /proc and TLC compares the observed time-to-exit with the model's rung deadline (spec/TermCases.tla). The worker side also runs in the deterministic simulator: the stream ends at every point of generated conversations and GatewayAbs.tla (TLC) requires the receiver thread, the pool and every body to wind down (nothing left blocked).",
    note="Wall-clock bounds with fixed slack (3-5.5 s); via= adds one 5 s rung per forwarding level; the OS chooses schedules. Known finding: gevent workers with non-cooperative bodies.",
    technique="TLA+ model of the worker exit ladder with discrete clock model-checked with TLC (incl. mutant); real initiator/worker processes with generated activities and death modes; timed observations validated by TLC against the model's rung deadlines",
    ref="5/C11"),
